@@ -21,7 +21,8 @@ theorem reach_of_run {fx : Fix} : ∀ (tr : List Label) (s0 s : St), Reach fx s0
 def wellB (s : St) (l : Label) : Bool :=
   (match l with | .newClient => false | .aConnect _ _ _ true => false | _ => true) &&
   (match l with
-   | .sNextID id => s.storeGet id == none && (match s.proc with | .aFin _ id' _ => id' != id | _ => true)
+   | .sLookup .outgoing id (.found none) =>
+     s.storeGet id == none && (match s.proc with | .aFin _ id' _ => id' != id | _ => true)
    | _ => true)
 
 theorem wellB_sound {s : St} {l : Label} (h : wellB s l = true) : Well s l := by
